@@ -590,3 +590,89 @@ pub fn run(args: &[String]) -> i32 {
     w.finish();
     0
 }
+
+/// spec/RpcPeers.tla on the real node: calls to two peers outstanding at the same time; every caller is handed the answer of its own peer
+/// to its own request, and nothing is left in the table
+pub fn run_peers(args: &[String]) -> i32 {
+    // rpc-peers <rounds> <calls-per-peer-per-round> <out.ndjson>
+    let rounds: usize = args[0].parse().unwrap_or(20);
+    let per: usize = args[1].parse().unwrap_or(4);
+    let rt = tokio::runtime::Builder::new_multi_thread().worker_threads(4).enable_all().build().expect("rt");
+    let mut w = NdWriter::create(&args[2]);
+    rt.block_on(async {
+        let listener = TcpListener::bind("127.0.0.1:0").await.expect("bind");
+        let (epmd_port, _epmd) = fake_epmd(listener.local_addr().unwrap().port()).await;
+        verif::set_epmd_port(epmd_port);
+        let mut node = Node::new(NODE, COOKIE);
+        if node.start(0).await.is_err() {
+            w.put(&json!({"tool_error": "node start"}));
+            return;
+        }
+        let node = Arc::new(node);
+        let names = [PEER, "peer2@127.0.0.1"];
+        let mut responders = Vec::new();
+        for (pi, name) in names.iter().enumerate() {
+            let Some(peer) = connect_peer_named(&node, &listener, name, &[]).await else {
+                w.put(&json!({"tool_error": format!("could not connect to {name}")}));
+                return;
+            };
+            // the scripted peer: answers every request with {rex, {PeerNumber, N}}, N the call's argument, after a short pause
+            let frames = peer.frames.clone();
+            let mut wr = peer.wr;
+            responders.push(tokio::spawn(async move {
+                let mut seen = 0usize;
+                loop {
+                    let new: Vec<Vec<u8>> = {
+                        let f = frames.lock().unwrap();
+                        f[seen.min(f.len())..].to_vec()
+                    };
+                    seen += new.len();
+                    for fr in new {
+                        if fr.len() < 2 {
+                            continue;
+                        }
+                        let Ok((_, rest)) = erltf::decoder::decode_with_trailing(&fr[1..]) else { continue };
+                        let Ok(OwnedTerm::Tuple(m)) = erltf::decode(rest) else { continue };
+                        let (Some(OwnedTerm::Pid(from)), Some(OwnedTerm::Tuple(call))) = (m.first().cloned(), m.get(1).cloned()) else { continue };
+                        let n = match call.get(3) {
+                            Some(OwnedTerm::List(a)) => a.first().cloned().unwrap_or(OwnedTerm::Nil),
+                            _ => OwnedTerm::Nil,
+                        };
+                        let control = OwnedTerm::Tuple(vec![OwnedTerm::Integer(2), OwnedTerm::Atom(Atom::new("")), OwnedTerm::Pid(from)]);
+                        let msg = OwnedTerm::Tuple(vec![OwnedTerm::Atom(Atom::new("rex")), OwnedTerm::Tuple(vec![OwnedTerm::Integer(pi as i64), n])]);
+                        let _ = write_dist_frame(&mut wr, &pass_through(&control, Some(&msg))).await;
+                    }
+                    tokio::time::sleep(Duration::from_micros(500)).await;
+                }
+            }));
+        }
+        let mut serial = 0i64;
+        for round in 0..rounds {
+            let mut hs = Vec::new();
+            for k in 0..per {
+                for (pi, name) in names.iter().enumerate() {
+                    serial += 1;
+                    let (n, node, name, num) = (serial, node.clone(), name.to_string(), serial);
+                    let _ = k;
+                    hs.push((pi, num, tokio::spawn(async move { node.rpc_call_raw_with_timeout(&name, "m", "f", vec![OwnedTerm::Integer(n)], Duration::from_secs(3)).await.map_err(|e| format!("{e:?}")) })));
+                }
+            }
+            let mut wrong = Vec::new();
+            for (pi, num, h) in hs {
+                let want = OwnedTerm::Tuple(vec![OwnedTerm::Atom(Atom::new("rex")), OwnedTerm::Tuple(vec![OwnedTerm::Integer(pi as i64), OwnedTerm::Integer(num)])]);
+                match h.await {
+                    Ok(Ok(t)) if t == want => {}
+                    Ok(Ok(t)) => wrong.push(json!({"peer": pi, "call": num, "got": format!("{t:?}").chars().take(120).collect::<String>()})),
+                    Ok(Err(e)) => wrong.push(json!({"peer": pi, "call": num, "error": e.chars().take(120).collect::<String>()})),
+                    Err(e) => wrong.push(json!({"peer": pi, "call": num, "panic": format!("{e}")})),
+                }
+            }
+            w.put(&json!({"round": round, "calls": per * 2, "wrong": wrong, "pending_after": node.verif_pending_rpcs()}));
+        }
+        for r in responders {
+            r.abort();
+        }
+    });
+    w.finish();
+    0
+}
